@@ -685,8 +685,9 @@ def sharded_close_part(R, quick):
     Correspondence: the model's close program (StFaults.close_prog through D_C12 "sh_close", the payload
     blocks taken from a recorded fault-free close): primitive-call traces of both closes, their outcomes,
     the files after each.
-    Oracle: the failing close is an I/O / data-access error; the second close never returns normally
-    unless every stored chunk is then readable."""
+    Oracle: the failing close is an I/O / data-access error; the second close returns normally and every
+    stored chunk is then readable (the write buffers are released only once a shard file is complete).
+    The model also evaluates the hypotheses of the tree theorems (C18_close_retry_checked) on every case."""
     from neuroglancer_scripts.sharded_file_accessor import ShardedFileAccessor
     R.notes.append("close model: the data of a minishard is one write (always with the in-memory buffers; with the "
                    "on-disk buffers up to 4096 bytes per minishard - the generated chunks are 9 bytes)")
@@ -712,7 +713,7 @@ def sharded_close_part(R, quick):
                 return classify_exception(e)
 
     def model_out(o):
-        return {"ok": ["ok"], "IOErr": ["IOErr"], "AttrErr": ["Crash", "AttributeError"]}[str(o)]
+        return {"ok": ["ok"], "IOErr": ["IOErr"]}[str(o)]
 
     reqs, pend = [], []
     for strategy in ("in memory", "on disk"):
@@ -739,7 +740,7 @@ def sharded_close_part(R, quick):
                     ok_payload = False
                     break
                 shards.append([b(os.path.dirname(ev[1])), b(ev[1]), ws[0], ws[1:1 + n], ws[1 + n:1 + 2 * n], ws[-1],
-                               True, 0])
+                               True])
             if not ok_payload and o0 == ["ok"]:
                 # 9-byte chunks: every minishard is one block also with the on-disk buffers (4096-byte reads)
                 R.disagree("write sequence of close() vs model (zero header, one data block and one index block "
@@ -771,7 +772,10 @@ def sharded_close_part(R, quick):
                         if ffs.fired and o1 not in (["IOErr"], ["AccessErr"]):
                             R.violation("failing primitive during ShardedFileAccessor.close() not reported as an I/O "
                                         "error", case, {"impl": o1})
-                        if o2 == ["ok"]:
+                        if o2 != ["ok"]:
+                            R.violation("close() repeated after a failed close() - without any failing call - does "
+                                        "not return normally", case, {"first": o1, "second": o2})
+                        else:
                             with open(os.path.join(ds, "info"), "w") as fh:
                                 json.dump(info, fh)
                             rd = ShardedFileAccessor(ds)
@@ -813,6 +817,9 @@ def sharded_close_part(R, quick):
                        [list(e[:2]) for e in events2], [x[:2] for x in g2])
         if model_out(m[5]) != o2:
             R.disagree("outcome of the second close() vs model", case, o2, model_out(m[5]))
+        if len(m) < 9 or str(m[8]) != "true":
+            R.disagree("hypotheses of C18_close_retry_checked (close_hyps) do not hold for the generated case",
+                       case, "generated shard list and tree", str(m[8]) if len(m) > 8 else "no reply item")
         d = h12.compare_tree(m[7], snap2, root)
         if d:
             R.disagree("files after the second close() vs model", case, [str(x)[:160] for x in d[:3]], "model")
